@@ -1282,6 +1282,10 @@ func (r *EngineRunner) Exec(f []string) (res string) {
 						v, err := db2.Get([]byte(k))
 						if err != nil {
 							r.fail("C04", "crash before Commit of a batch that was open while Merge scanned (marker written: %v): key %s is lost (%v); neither the uncommitted batch nor the merge may take its value %s away", markerSeen, Obs([]byte(k)), err, Obs(want))
+							if markerSeen {
+								// the same loss, in the words of C06: the adopted merge changed what a key maps to
+								r.fail("C06", "a Merge that finished while a batch was open (pieces flushed, never committed), adopted by the restart after a crash: key %s, which held %s before the batch, is gone", Obs([]byte(k)), Obs(want))
+							}
 							break
 						} else if !bytes.Equal(v, want) {
 							r.fail("C04", "crash before Commit of a batch that was open while Merge scanned: key %s = %s, before the batch it was %s", Obs([]byte(k)), Obs(v), Obs(want))
